@@ -43,7 +43,14 @@
 (***************************************************************************)
 EXTENDS Integers, Sequences, FiniteSets, TLC, Json, IOUtils
 
-CONSTANTS Rivals,      \* {""} or a set of labels: while THIS upload stands at the label (first Put attempt,
+CONSTANTS Rivals2,     \* {""} or a set of labels: while THIS upload (which is not disturbed otherwise and gets
+                       \* acknowledged) stands at the label, a second upload of the same block starts and gets as
+                       \* far as having its own temp file; it goes on only after this one has been answered, and
+                       \* then is aborted (client gone) or finishes
+          SharedTmp,   \* FALSE in the real code: ioutil.TempFile gives every upload its own temp file.  TRUE
+                       \* models one temp name per block (opened with O_TRUNC): the stalling rival truncates what
+                       \* this upload has written - refuted by AllOrNothing (MC_C02_mut2.cfg)
+          Rivals,      \* {""} or a set of labels: while THIS upload stands at the label (first Put attempt,
                        \* i.e. past CompareAndTouch), a SECOND upload of the same block runs from start to
                        \* acknowledgement; afterwards this one goes on and may fail or be cancelled
           Chunks,      \* set of block sizes in chunks, e.g. {0, 1, 3}
@@ -60,6 +67,7 @@ VARIABLES phase, pre, acked,        \* contract ghost state
           tmp,       \* chunks written to the current temp file, -1 = none
           junk,      \* number of temp files left behind
           rdone,     \* the rival upload (cf.rival) has run
+          rst,       \* the stalling rival (cf.rival2): "no" | "open" (it has created its temp file) | "abort" | "finish"
           touched,   \* Touch set the timestamp of the existing copy
           cancelled, \* the request context has ended
           point,     \* label at which the kill / cancel / error was applied ("" = not yet)
@@ -71,7 +79,7 @@ VARIABLES phase, pre, acked,        \* contract ghost state
 
 C == INSTANCE KeepstorePutContract
 pvars == <<phase, pre, acked>>
-vars == <<pvars, cf, pc, att, ent, newk, tmp, junk, rdone, touched, cancelled, point, occ, reply, wdone, obs, viol>>
+vars == <<pvars, cf, pc, att, ent, newk, tmp, junk, rdone, rst, touched, cancelled, point, occ, reply, wdone, obs, viol>>
 
 WriteLabel(k) == IF k = 1 THEN "WriteBlock.Write#1" ELSE IF k = 2 THEN "WriteBlock.Write#2" ELSE "WriteBlock.Write#3"
 
@@ -79,8 +87,10 @@ RivalLabels == {"WriteBlock.IsFull", "WriteBlock.MkdirAll", "WriteBlock.TempFile
                 "WriteBlock.Write#1", "WriteBlock.Write#2", "WriteBlock.Write#3", "WriteBlock.tmpfile.Close",
                 "WriteBlock.Chtimes", "WriteBlock.OpenFile", "WriteBlock.lockfile", "WriteBlock.Rename"}
 
-Init == \E p \in Pres, n \in Chunks, m \in Modes, rv \in Rivals :
-          /\ cf = [pre |-> p, n |-> n, mode |-> m, rival |-> rv]
+Init == \E p \in Pres, n \in Chunks, m \in Modes, rv \in Rivals, rv2 \in Rivals2 :
+          /\ cf = [pre |-> p, n |-> n, mode |-> m, rival |-> rv, rival2 |-> rv2]
+          /\ (rv2 # "" => (rv2 \in RivalLabels /\ rv = "" /\ m = "none" /\ p \in {"none", "corrupt_old"}))
+          /\ rst = "no"
           /\ (m = "werr" => n > 0)
           \* a second, overlapping upload of the same block (rival) is combined with the in-process faults
           /\ (rv # "" => (rv \in RivalLabels /\ m \in {"none", "cancel", "werr"} /\ p \in {"none", "corrupt_old"}))
@@ -100,7 +110,7 @@ Labels == {"Compare.stat", "Compare.getFunc", "Touch.OpenFile", "Touch.lock", "T
 Start == /\ pc = "start"
          /\ C!PutStartEff(cf.pre)
          /\ pc' = "Compare.stat"
-         /\ UNCHANGED <<cf, att, ent, newk, tmp, junk, rdone, touched, cancelled, point, occ, reply, wdone, obs, viol>>
+         /\ UNCHANGED <<cf, att, ent, newk, tmp, junk, rdone, rst, touched, cancelled, point, occ, reply, wdone, obs, viol>>
 
 (* the handler answers (once) *)
 Answer(st) == /\ reply' = st
@@ -110,7 +120,8 @@ Answer(st) == /\ reply' = st
 (* WriteBlock failed: second attempt on "every writable volume", or give up *)
 AfterFail == IF cancelled \/ att = 2 THEN "failed" ELSE "retry"
 
-RivalDue == cf.rival # "" /\ ~rdone /\ pc = cf.rival /\ att = 1
+RivalDue == \/ cf.rival # "" /\ ~rdone /\ pc = cf.rival /\ att = 1
+            \/ cf.rival2 # "" /\ rst = "no" /\ pc = cf.rival2 /\ att = 1
 
 Step ==
     /\ pc \in Labels /\ ~RivalDue
@@ -118,84 +129,84 @@ Step ==
     /\ CASE pc = "Compare.stat" ->
               \* stat(block path): nothing there (or not a directory above it) -> go and write
               /\ pc' = IF ent = "absent" THEN "WriteBlock.IsFull" ELSE "Compare.getFunc"
-              /\ UNCHANGED <<pvars, att, ent, newk, tmp, junk, rdone, touched, reply, wdone, viol>>
+              /\ UNCHANGED <<pvars, att, ent, newk, tmp, junk, rdone, rst, touched, reply, wdone, viol>>
          [] pc = "Compare.getFunc" ->
               \* open + compare; ctx is checked while comparing
               /\ pc' = IF cancelled THEN "failed"
                       ELSE IF cf.pre = "intact_old" THEN "Touch.OpenFile" ELSE "WriteBlock.IsFull"
-              /\ UNCHANGED <<pvars, att, ent, newk, tmp, junk, rdone, touched, reply, wdone, viol>>
+              /\ UNCHANGED <<pvars, att, ent, newk, tmp, junk, rdone, rst, touched, reply, wdone, viol>>
          [] pc \in {"Touch.OpenFile", "Touch.lock", "Touch.lockfile"} ->
               /\ pc' = CASE pc = "Touch.OpenFile" -> "Touch.lock" [] pc = "Touch.lock" -> "Touch.lockfile"
                          [] OTHER -> "Touch.Chtimes"
-              /\ UNCHANGED <<pvars, att, ent, newk, tmp, junk, rdone, touched, reply, wdone, viol>>
+              /\ UNCHANGED <<pvars, att, ent, newk, tmp, junk, rdone, rst, touched, reply, wdone, viol>>
          [] pc = "Touch.Chtimes" ->
               \* Touch does not look at the request context: success is reported
               /\ touched' = TRUE
               /\ pc' = "ok"
-              /\ UNCHANGED <<pvars, att, ent, newk, tmp, junk, rdone, reply, wdone, viol>>
+              /\ UNCHANGED <<pvars, att, ent, newk, tmp, junk, rdone, rst, reply, wdone, viol>>
          [] pc \in {"WriteBlock.IsFull", "WriteBlock.lock", "WriteBlock.Copy"} ->
               /\ pc' = CASE pc = "WriteBlock.IsFull" -> "WriteBlock.MkdirAll"
                          [] pc = "WriteBlock.lock" -> "WriteBlock.Copy"
                          [] OTHER -> IF cf.n = 0 THEN "WriteBlock.eof" ELSE WriteLabel(1)
-              /\ UNCHANGED <<pvars, att, ent, newk, tmp, junk, rdone, touched, reply, wdone, viol>>
+              /\ UNCHANGED <<pvars, att, ent, newk, tmp, junk, rdone, rst, touched, reply, wdone, viol>>
          [] pc = "WriteBlock.MkdirAll" ->
               /\ pc' = IF cf.pre = "nodir" THEN AfterFail ELSE "WriteBlock.TempFile"
-              /\ UNCHANGED <<pvars, att, ent, newk, tmp, junk, rdone, touched, reply, wdone, viol>>
+              /\ UNCHANGED <<pvars, att, ent, newk, tmp, junk, rdone, rst, touched, reply, wdone, viol>>
          [] pc = "WriteBlock.TempFile" ->
               /\ tmp' = 0
               /\ pc' = "WriteBlock.lock"
-              /\ UNCHANGED <<pvars, att, ent, newk, junk, rdone, touched, reply, wdone, viol>>
+              /\ UNCHANGED <<pvars, att, ent, newk, junk, rdone, rst, touched, reply, wdone, viol>>
          [] pc \in {"WriteBlock.Write#1", "WriteBlock.Write#2", "WriteBlock.Write#3"} ->
               \* the chunk was read from the pipe before the label; the write may be made to fail
               /\ IF cf.mode = "werr" /\ point = pc
                  THEN /\ pc' = "WriteBlock.errClose" /\ tmp' = tmp
                  ELSE /\ tmp' = tmp + 1
                       /\ pc' = IF tmp + 1 < cf.n THEN WriteLabel(tmp + 2) ELSE "WriteBlock.eof"
-              /\ UNCHANGED <<pvars, att, ent, newk, junk, rdone, touched, reply, wdone, viol>>
+              /\ UNCHANGED <<pvars, att, ent, newk, junk, rdone, rst, touched, reply, wdone, viol>>
          [] pc = "WriteBlock.tmpfile.Close" ->
               /\ pc' = "WriteBlock.Chtimes"
-              /\ UNCHANGED <<pvars, att, ent, newk, tmp, junk, rdone, touched, reply, wdone, viol>>
+              /\ UNCHANGED <<pvars, att, ent, newk, tmp, junk, rdone, rst, touched, reply, wdone, viol>>
          [] pc = "WriteBlock.Chtimes" ->
               /\ pc' = "WriteBlock.OpenFile"
-              /\ UNCHANGED <<pvars, att, ent, newk, tmp, junk, rdone, touched, reply, wdone, viol>>
+              /\ UNCHANGED <<pvars, att, ent, newk, tmp, junk, rdone, rst, touched, reply, wdone, viol>>
          [] pc = "WriteBlock.OpenFile" ->
               \* open the file being replaced (O_RDWR): absent or a directory -> no flock is taken
               /\ pc' = IF ent = "absent" \/ cf.pre = "dir" THEN "WriteBlock.Rename" ELSE "WriteBlock.lockfile"
-              /\ UNCHANGED <<pvars, att, ent, newk, tmp, junk, rdone, touched, reply, wdone, viol>>
+              /\ UNCHANGED <<pvars, att, ent, newk, tmp, junk, rdone, rst, touched, reply, wdone, viol>>
          [] pc = "WriteBlock.lockfile" ->
               /\ pc' = "WriteBlock.Rename"
-              /\ UNCHANGED <<pvars, att, ent, newk, tmp, junk, rdone, touched, reply, wdone, viol>>
+              /\ UNCHANGED <<pvars, att, ent, newk, tmp, junk, rdone, rst, touched, reply, wdone, viol>>
          [] pc = "WriteBlock.Rename" ->
               \* rename(tmp, block path); fails if a directory is there
               /\ IF cf.pre = "dir"
                  THEN /\ pc' = "WriteBlock.Remove" /\ UNCHANGED <<ent, newk, tmp>>
                  ELSE /\ ent' = "new" /\ newk' = tmp /\ tmp' = -1 /\ pc' = "ok"
-              /\ UNCHANGED <<pvars, att, junk, rdone, touched, reply, wdone, viol>>
+              /\ UNCHANGED <<pvars, att, junk, rdone, rst, touched, reply, wdone, viol>>
          [] pc = "WriteBlock.errClose" ->
               /\ pc' = "WriteBlock.Remove"
-              /\ UNCHANGED <<pvars, att, ent, newk, tmp, junk, rdone, touched, reply, wdone, viol>>
+              /\ UNCHANGED <<pvars, att, ent, newk, tmp, junk, rdone, rst, touched, reply, wdone, viol>>
          [] pc = "WriteBlock.Remove" ->
               /\ tmp' = -1
               /\ pc' = AfterFail
-              /\ UNCHANGED <<pvars, att, ent, newk, junk, rdone, touched, reply, wdone, viol>>
+              /\ UNCHANGED <<pvars, att, ent, newk, junk, rdone, rst, touched, reply, wdone, viol>>
 
 (* the next read from the pipe: EOF after the last chunk (the copier finished and the pipe was    *)
 (* closed normally) or, once the context has ended, the error the pipe was closed with            *)
 Eof == /\ pc = "WriteBlock.eof"
        /\ \/ pc' = "WriteBlock.tmpfile.Close"
           \/ cancelled /\ pc' = "WriteBlock.errClose"
-       /\ UNCHANGED <<pvars, cf, att, ent, newk, tmp, junk, rdone, touched, cancelled, point, occ, reply, wdone, obs, viol>>
+       /\ UNCHANGED <<pvars, cf, att, ent, newk, tmp, junk, rdone, rst, touched, cancelled, point, occ, reply, wdone, obs, viol>>
 
 (* once the context has ended, a read of a further chunk fails instead *)
 ReadFails == /\ cancelled
              /\ pc \in {"WriteBlock.Write#1", "WriteBlock.Write#2", "WriteBlock.Write#3"}
              /\ pc' = "WriteBlock.errClose"
-             /\ UNCHANGED <<pvars, cf, att, ent, newk, tmp, junk, rdone, touched, cancelled, point, occ, reply, wdone, obs, viol>>
+             /\ UNCHANGED <<pvars, cf, att, ent, newk, tmp, junk, rdone, rst, touched, cancelled, point, occ, reply, wdone, obs, viol>>
 
 Retry == /\ pc = "retry"
          /\ att' = 2
          /\ pc' = "WriteBlock.IsFull"
-         /\ UNCHANGED <<pvars, cf, ent, newk, tmp, junk, rdone, touched, cancelled, point, occ, reply, wdone, obs, viol>>
+         /\ UNCHANGED <<pvars, cf, ent, newk, tmp, junk, rdone, rst, touched, cancelled, point, occ, reply, wdone, obs, viol>>
 
 (* the writer has finished; the handler answers unless it already did (cancel) *)
 Finish == /\ pc \in {"ok", "failed"}
@@ -205,7 +216,7 @@ Finish == /\ pc \in {"ok", "failed"}
                               ELSE IF cancelled THEN {503} ELSE {500}) : Answer(st)
              ELSE UNCHANGED <<pvars, reply, viol>>
           /\ pc' = "end"
-          /\ UNCHANGED <<cf, att, ent, newk, tmp, junk, rdone, touched, cancelled, point, occ, obs>>
+          /\ UNCHANGED <<cf, att, ent, newk, tmp, junk, rdone, rst, touched, cancelled, point, occ, obs>>
 
 (* mode "kill": the process dies at the current label (before its system call) *)
 Crash == /\ cf.mode = "kill" /\ point = "" /\ pc \in Labels /\ reply = 0
@@ -215,13 +226,13 @@ Crash == /\ cf.mode = "kill" /\ point = "" /\ pc \in Labels /\ reply = 0
          /\ junk' = IF tmp >= 0 THEN junk + 1 ELSE junk
          /\ pc' = "dead"
          /\ wdone' = TRUE
-         /\ UNCHANGED <<cf, att, ent, newk, tmp, rdone, touched, cancelled, reply, obs>>
+         /\ UNCHANGED <<cf, att, ent, newk, tmp, rdone, rst, touched, cancelled, reply, obs>>
 
 (* mode "killack": the process dies right after the acknowledgement *)
 CrashAfterAck == /\ cf.mode = "killack" /\ pc = "end" /\ point = "" /\ obs = 0
                  /\ point' = "ack"
                  /\ C!RestartEff
-                 /\ UNCHANGED <<cf, pc, att, ent, newk, tmp, junk, rdone, touched, cancelled, occ, reply, wdone, obs, viol>>
+                 /\ UNCHANGED <<cf, pc, att, ent, newk, tmp, junk, rdone, rst, touched, cancelled, occ, reply, wdone, obs, viol>>
 
 (* mode "cancel": the client goes away at the current label.  Inside Compare and WriteBlock the   *)
 (* handler returns 503 at once (putWithPipe / CompareAndTouch see ctx.Done) and the writer goes   *)
@@ -235,7 +246,7 @@ Cancel == /\ cf.mode = "cancel" /\ point = "" /\ pc \in Labels /\ reply = 0
              THEN UNCHANGED <<pvars, reply, viol>>
              ELSE \/ Answer(503)
                   \/ UNCHANGED <<pvars, reply, viol>>     \* the select in putWithPipe may still pick the result
-          /\ UNCHANGED <<cf, pc, att, ent, newk, tmp, junk, rdone, touched, wdone, obs>>
+          /\ UNCHANGED <<cf, pc, att, ent, newk, tmp, junk, rdone, rst, touched, wdone, obs>>
           \* (point', occ', cancelled' are set above)
 
 (* The rival upload, atomically: its CompareAndTouch finds nothing usable (this upload is past its own, so the   *)
@@ -248,13 +259,29 @@ RivalPut == /\ cf.rival # "" /\ ~rdone /\ pc = cf.rival /\ att = 1 /\ point \in 
             /\ rdone' = TRUE
             /\ ent' = "rival"
             /\ C!RivalAckEff
-            /\ UNCHANGED <<cf, pc, att, newk, tmp, junk, touched, cancelled, point, occ, reply, wdone, obs, viol>>
+            /\ UNCHANGED <<cf, pc, att, newk, tmp, junk, rst, touched, cancelled, point, occ, reply, wdone, obs, viol>>
+
+(* The stalling rival.  Begin: it is past its CompareAndTouch and creates its temp file (with unique temp names   *)
+(* nothing this upload can see).  End, after this upload has been answered: the client goes away (its temp file  *)
+(* is removed) or it finishes (rename of ITS complete file, acknowledged).                                       *)
+RivalBegin == /\ cf.rival2 # "" /\ rst = "no" /\ pc = cf.rival2 /\ att = 1
+              /\ rst' = "open"
+              /\ tmp' = IF SharedTmp /\ tmp >= 0 THEN 0 ELSE tmp
+              /\ UNCHANGED <<pvars, cf, pc, att, ent, newk, junk, rdone, touched, cancelled, point, occ, reply, wdone, obs, viol>>
+
+RivalEnd == /\ rst = "open" /\ pc = "end" /\ wdone
+            /\ \/ /\ rst' = "abort"
+                  /\ UNCHANGED <<pvars, ent>>
+               \/ /\ rst' = "finish"
+                  /\ ent' = "rival"
+                  /\ C!RivalAckEff
+            /\ UNCHANGED <<cf, pc, att, newk, tmp, junk, rdone, touched, cancelled, point, occ, reply, wdone, obs, viol>>
 
 (* mode "werr": choose the chunk whose write fails *)
 ChooseErr == /\ cf.mode = "werr" /\ point = "" /\ pc = "start"
              /\ \E k \in 1 .. cf.n : point' = WriteLabel(k)
              /\ occ' = 1
-             /\ UNCHANGED <<pvars, cf, pc, att, ent, newk, tmp, junk, rdone, touched, cancelled, reply, wdone, obs, viol>>
+             /\ UNCHANGED <<pvars, cf, pc, att, ent, newk, tmp, junk, rdone, rst, touched, cancelled, reply, wdone, obs, viol>>
 
 -----------------------------------------------------------------------------
 (* Observation by a fresh handler (or the same one) once nothing is running *)
@@ -271,6 +298,7 @@ TmpListed == IF TmpLooksLikeBlock /\ (junk > 0 \/ tmp >= 0) THEN <<"other">> ELS
 
 Observe ==
     /\ (pc = "dead" \/ (pc = "end" /\ wdone /\ (cf.mode # "killack" \/ point = "ack")))
+    /\ rst # "open"
     /\ obs < 4
     /\ obs' = obs + 1
     /\ CASE obs = 0 -> /\ C!RestartEff /\ UNCHANGED viol
@@ -279,9 +307,9 @@ Observe ==
          [] obs = 3 -> /\ C!ObserveEff
                        /\ viol' = (viol \/ ~C!DirScanOk(IF ent = "absent" THEN "absent" ELSE IndexClass[1],
                                                         TmpLooksLikeBlock /\ (junk > 0 \/ tmp >= 0)))
-    /\ UNCHANGED <<cf, pc, att, ent, newk, tmp, junk, rdone, touched, cancelled, point, occ, reply, wdone>>
+    /\ UNCHANGED <<cf, pc, att, ent, newk, tmp, junk, rdone, rst, touched, cancelled, point, occ, reply, wdone>>
 
-Next == Start \/ Step \/ RivalPut \/ Eof \/ ReadFails \/ Retry \/ Finish \/ Crash \/ CrashAfterAck \/ Cancel \/ ChooseErr \/ Observe
+Next == Start \/ Step \/ RivalPut \/ RivalBegin \/ RivalEnd \/ Eof \/ ReadFails \/ Retry \/ Finish \/ Crash \/ CrashAfterAck \/ Cancel \/ ChooseErr \/ Observe
 
 Spec == Init /\ [][Next]_vars
 
@@ -305,7 +333,7 @@ NoLeftovers == (pc = "end" /\ wdone) => (tmp = -1 /\ junk = 0)
 -----------------------------------------------------------------------------
 (* Scenario emission: one record per (pre, size, mode, point) *)
 Emit == (obs = 4) =>
-          Serialize(<<[id |-> 0, pre |-> cf.pre, n |-> cf.n, mode |-> cf.mode, point |-> point, occ |-> occ, rival |-> cf.rival, rdone |-> rdone,
+          Serialize(<<[id |-> 0, pre |-> cf.pre, n |-> cf.n, mode |-> cf.mode, point |-> point, occ |-> occ, rival |-> cf.rival, rdone |-> rdone, rival2 |-> cf.rival2, rst |-> rst,
                        expect_reply |-> reply, expect_ent |-> ent]>>,
                     IOEnv.VERIF_OUT,
                     [format |-> "NDJSON", charset |-> "UTF-8",
